@@ -41,6 +41,13 @@ Theorem C20_hijack_available : forall st, Forall passive st ->
 Proof. exact transparent_hijack. Qed.
 Print Assumptions C20_hijack_available.
 
+(* ... also after the handler has set headers and written a status through its writer (a tunnel's 200, an upgrade's 101) *)
+Theorem C20_hijack_available_after_status : forall st pre, Forall passive st -> forallb is_head_act pre = true ->
+  snd (serve st full (pre ++ [HHijack])) = 1 /\
+  v_hijacked (client_view (fst (serve st full (pre ++ [HHijack])))) = true.
+Proof. exact transparent_hijack_after_head. Qed.
+Print Assumptions C20_hijack_available_after_status.
+
 (* where the connection cannot be hijacked (HTTP/2) the attempt fails through every stack and the handler's
    fallback response is served as if it had not tried *)
 Theorem C20_hijack_unavailable_falls_back : forall st c h,
